@@ -831,6 +831,8 @@ def env_jobs(script):
             if it[0] in ('st', 'se', 'et') and ('l', it[1]) not in seen:
                 seen.add(('l', it[1]))
                 out.append(env_lower_job(it[1]))
+                if '{' in it[1] or '}' in it[1]:
+                    out.append(env_qname_job(it[1]))
             if it[0] in ('st', 'se'):
                 for n, v in it[2]:
                     v = n if v is None else v
@@ -844,6 +846,18 @@ def env_lower_job(t):
     if has_surrogate(t):
         return None
     return ('env-lower', t, proto.line(Atom('C07'), Atom('lower'), t), t.lower())
+
+
+def env_qname_job(t):
+    """genshi.core.QName(str) against mkQName: (namespace or '', localname)"""
+    _, gc = genshi_mods()
+    if has_surrogate(t):
+        return None
+    q = gc.QName(t)
+    return ('env-qname', t, proto.line(Atom('C07'), Atom('qname'), t), [q.namespace or '', q.localname])
+
+
+QNAME_ALPHABET = ['{', '{', '}', '}', 'a', 'u', ':', 'http://x', ' ', '', '\xe9']
 
 
 def env_strip_job(v):
@@ -868,7 +882,9 @@ STRIP_PARTS = ['&', '&amp;', '&#65;', '&#x41;', '&#X41', '&#1114112;', '&#xD800;
 def gen_env_jobs(rng, n):
     out = []
     for _ in range(n):
-        if rng.random() < 0.5:
+        if rng.random() < 0.25:
+            out.append(env_qname_job('{' * rng.choice([0, 0, 1, 2, 3]) + ''.join(rng.choice(QNAME_ALPHABET) for _ in range(rng.randrange(0, 8)))))
+        elif rng.random() < 0.5:
             out.append(env_lower_job(''.join(rng.choice(LOWER_ALPHABET) if rng.random() < 0.9 else G.rand_char(rng)
                                              for _ in range(rng.randrange(0, 8)))))
         else:
@@ -907,7 +923,12 @@ def html_line(script):
 def outcome_wire(events, ex):
     """what the real code did, in the answer vocabulary of the driver (events with their positions)"""
     gi, _ = genshi_mods()
-    evs = [[wire_ev(cev(e)), Atom(str(int(e[2][1]))), Atom(str(int(e[2][2])))] for e in events]
+    def posw(e):
+        try:
+            return [Atom(str(int(e[2][1]))), Atom(str(int(e[2][2])))]
+        except Exception:   # noqa: a position that is no (filename, int, int) - the oracle reports it (check_types)
+            return [Atom('nopos'), Atom('nopos')]
+    evs = [[wire_ev(cev(e))] + posw(e) for e in events]
     if ex is None:
         return [evs, Atom('ok')]
     if isinstance(ex, gi.ParseError):
@@ -1860,7 +1881,11 @@ def process_env(jobs, res):
         except Exception:   # noqa
             model = Atom(ans)
         res.streams[stream] = res.streams.get(stream, 0) + 1
-        if stream == 'env-lower':
+        if stream == 'env-qname':
+            res.count('env-qname:' + ('leading-braces-and-separator' if arg.startswith('{{') and '}' in arg else
+                                      'separator-in-local-part' if arg.lstrip('{').count('}') > 1 else
+                                      'namespaced' if '}' in arg else 'plain'))
+        elif stream == 'env-lower':
             res.count('env-lower:' + ('sigma-final' if '\u03c2' in real and '\u03a3' in arg else 'sigma' if '\u03a3' in arg else
                                       'changed' if real != arg else 'unchanged'))
         else:
